@@ -72,6 +72,37 @@ class ShapeT:
             dims = tuple(dims[0])
         return _permute(self, dims)
 
+    def __getitem__(self, key):
+        """basic indexing: ints, slices (also strided) and Ellipsis -- the shape rule only"""
+        if not isinstance(key, tuple):
+            key = (key,)
+        n_spec = sum(1 for k in key if k is not Ellipsis and k is not None)
+        out, d = [], 0
+        for k in key:
+            if k is Ellipsis:
+                fill = len(self.shape) - n_spec
+                out += list(self.shape[d:d + fill])
+                d += fill
+            elif k is None:
+                out.append(1)
+            elif isinstance(k, int):
+                d += 1
+            elif isinstance(k, slice):
+                n = self.shape[d]
+                d += 1
+                st = 1 if k.step is None else int(k.step)
+                lo = 0 if k.start is None else int(k.start)
+                if k.stop is not None or lo < 0 or st <= 0:
+                    if isinstance(n, SI):
+                        raise EngineGap("shape front end: slice with a stop / negative start on a symbolic extent")
+                    out.append(len(range(*k.indices(int(n)))))
+                else:
+                    out.append((n - lo + (st - 1)) // st)  # ceil((n - lo) / st); extents in the claim are >= lo
+            else:
+                raise EngineGap(f"shape front end: index {type(k).__name__}")
+        out += list(self.shape[d:])
+        return ShapeT(out)
+
     def __repr__(self):
         return f"ShapeT({tuple(str(s.t) if isinstance(s, SI) else s for s in self.shape)})"
 
@@ -301,3 +332,27 @@ class _CommonTorchProxy:
 
 
 COMMON_TORCH = _CommonTorchProxy()
+
+
+# ---------------------------------------------------------------------- torchvision Swin-T pieces (plain Python functions, not torch API: patched by name)
+def swin_attention_stub(input, qkv_weight, proj_weight, relative_position_bias, window_size, num_heads, shift_size, *a, **k):
+    """torchvision.models.swin_transformer.shifted_window_attention: pads to a multiple of the window, attends inside windows, un-pads;
+    documented contract (B, H, W, C) -> (B, H, W, C).  Channel bookkeeping is checked; the contract itself is validated against the real
+    function on concrete sizes (C14 'validate')."""
+    B, H, W, C = input.shape
+    if int(C) * 3 != qkv_weight.shape[0] or int(C) != qkv_weight.shape[1] or proj_weight.shape[0] != int(C) or proj_weight.shape[1] != int(C) or int(C) % int(num_heads):
+        raise ShapeErr(f"window attention: {C} channels vs qkv {tuple(qkv_weight.shape)} / proj {tuple(proj_weight.shape)} / {num_heads} heads")
+    OPS_USED.add("shifted_window_attention[stub]")
+    return ShapeT(input.shape)
+
+
+def install_swin_stubs():
+    import torchvision.models.swin_transformer as sw
+    real = sw.shifted_window_attention
+    sw.shifted_window_attention = swin_attention_stub
+    return real
+
+
+def remove_swin_stubs(real):
+    import torchvision.models.swin_transformer as sw
+    sw.shifted_window_attention = real
